@@ -89,11 +89,19 @@ fn load_world(repo: &Path, work: &Path) -> World {
         ),
         (
             "syn_shapes__q",
-            "schema { query: Query mutation: Mut }\nscalar Stamp\ntype Query { grid: [[Int!]!]!, maybe: [[Stamp]], thing(id: ID! = \"1\", f: Filter = {n: 1}): Thing }\ntype Mut { touch(at: Stamp!): Stamp }\ninterface Thing { id: ID! }\ntype A implements Thing { id: ID!, a: [A!] }\ntype B implements Thing { id: ID!, b: Float }\nunion AB = A | B\ninput Filter { n: Int = 3, lim: Int! = 10, tags: [String!] = [\"x\"], strict: [Int!]! = [1], inner: Filter }\n",
-            "query Shapes($f: Filter) { grid maybe thing(id: \"2\", f: $f) { __typename id ... on A { a { id } } ... on B { b } } }\n",
+            "schema { query: Query mutation: Mut }\nscalar Stamp\ntype Query { grid: [[Int!]!]!, maybe: [[Stamp]], thing(id: ID! = \"1\", f: Filter = {n: 1}): Thing }\ntype Mut { touch(at: Stamp!): Stamp }\ninterface Thing { id: ID!, legacyId: Int @deprecated(reason: \"use id\") }\ntype A implements Thing { id: ID!, legacyId: Int, a: [A!] }\ntype B implements Thing { id: ID!, legacyId: Int, b: Float, flags: [Boolean]!, m: Mode }\nunion AB = A | B\nenum Mode { FAST SLOW @deprecated(reason: \"too slow\") }\ninput Filter { n: Int = 3, lim: Int! = 10, mode: Mode = FAST, on: Boolean! = true, ratio: Float, tags: [String!] = [\"x\"], strict: [Int!]! = [1], inner: Filter }\n",
+            "query Shapes($f: Filter) { grid maybe thing(id: \"2\", f: $f) { __typename id legacyId ... on A { a { id } } ... on B { b flags m } } }\n",
         ),
     ];
-    for (name, sdl, query) in syn {
+    // further operations against the same synthetic schemas: mutation and subscription roots
+    // with custom names
+    let shapes_sdl = syn.iter().find(|(n, _, _)| *n == "syn_shapes__q").map(|(_, s, _)| *s).unwrap_or("");
+    let ext_sdl = syn.iter().find(|(n, _, _)| *n == "syn_ext__q").map(|(_, s, _)| *s).unwrap_or("");
+    let more: Vec<(&str, &str, &str)> = vec![
+        ("syn_shapes__m", shapes_sdl, "mutation Touch($at: Stamp!, $f: Filter) { touch(at: $at) }\n"),
+        ("syn_ext__s", ext_sdl, "subscription Ticks { tick }\n"),
+    ];
+    for (name, sdl, query) in syn.iter().cloned().chain(more) {
         let d = fxdir.join(name);
         std::fs::create_dir_all(&d).unwrap();
         std::fs::write(d.join("served.graphql"), sdl).unwrap();
